@@ -1,12 +1,19 @@
 """C33 — the vector store returns live items and correctly ranked query hits; Optimize never loses, duplicates or
 resurrects items.
-Spec: spec/VectorStore.tla (+Trace).  Technique: TLC explores the complete state graph of the store model (3 ids x 4
-equal-norm integer vectors x 2 payload tags, any number of calls, <= 2-3 optimizations) and checks C33 on every state
-and every possible query result; one program per reachable state is emitted and a seeded sample of them is replayed on
-the real ai/vector store (filesystem backend, in-memory L2 cache) under every usage mode / ingestion-buffer mode /
-transaction policy; after each mutating call the driver reads Get on every id and Query on every probe, and TLC
-validates the complete call log against VectorStoreTrace (code -> spec).  Seeded random long programs (more ids, all
-six vectors) are validated the same way.  The spec is the only oracle."""
+Spec: spec/VectorStore.tla (+Trace).  Technique:
+ 1. TLC explores the complete state graph of the store model (3 ids x 3-4 equal-norm integer vectors x 2 payload
+    tags, call sequences of any length, <= 2-3 optimizations, with and without the ingestion buffer) and checks C33 on
+    every state and on every result Query may return (VectorStore_mc*.cfg); a second run explores the model with the
+    named deviations of the pinned commit switched on and lists the programs that break C33 there (VectorStore_asis*).
+ 2. spec -> code: one program per reachable model state is emitted; a seeded stratified sample of them (and of the
+    deviation witnesses) is executed on the real ai/vector store (filesystem backend, in-memory L2 cache) under every
+    UsageMode, ingestion-buffer mode and transaction policy; stores larger than the batch sizes of Optimize and
+    Consolidate and seeded random long programs (10 ids, 6 vectors, repeated ids in batches) are added.
+ 3. code -> spec: after each mutating call the driver reads Get on every id and Query on the probes; TLC validates
+    every call log against VectorStoreTrace (strict constants).  A rejected log is validated again with the deviation
+    constants: only if they explain the whole log is it attributed to a named deviation (known finding); the unpacked
+    log names the exact call.  The spec is the only oracle.
+ 4. white box, no verdict: dumps of the Content / Vectors / TempVectors trees must equal the concrete model state."""
 import concurrent.futures, hashlib, json, os, re, time
 import vlib
 
@@ -15,7 +22,7 @@ META = dict(
     technique="TLA+ model of the store's trees (Content keys with tombstones, Vectors entries, TempVectors, version) checked exhaustively by TLC; one program per reachable model state replayed on the real ai/vector store and every call log (Upsert/UpsertBatch/Delete/Optimize, then Get on all ids and Query on all probes) trace-validated by TLC; seeded random long programs likewise",
     level="model_checking",
     level_text="TLC visits every reachable state of the model for 3 ids x 4 vectors x 2 payloads (unbounded call sequences, bounded number of optimizations) and evaluates the C33 invariants on each state and on every result Query may return; the model is bound to the code in both directions: TLC-generated programs are executed on the real store and all real call logs must be behaviours of the model (exact Get results; Query hits distinct, live, filtered, ranked by the integer dot products TLC computes itself).",
-    level_note="Cosine ranking is decided exactly because all vectors have equal norm (score * |v|^2 rounded to the integer dot product in the driver). Query recall is not demanded (nprobe = 2 makes the search approximate; C33 says 'at most k'). Single client, no crashes inside Optimize, filesystem backend with the in-memory cache; deduplication left enabled (disabling it is documented to allow ghost vectors). Optimize of > 200 items (several batches) only in the thorough tier's long programs.",
+    level_note="Cosine ranking is decided exactly because all vectors have equal norm (score * |v|^2 rounded to the integer dot product in the driver). Query recall is not demanded (nprobe = 2 makes the search approximate; C33 says 'at most k'), so changes that only lose hits are not detected. Single client, no crash or cancellation inside Optimize (the clean-up / grace-period branch of a previously failed optimization is not reached), filesystem backend with the in-memory cache; deduplication left enabled (disabling it is documented to allow ghost vectors). The replayed programs are a sample of the model's behaviours (all states are checked by TLC, one program per state is available). UsageMode DynamicWithVectorCountTracking and always-on ingestion buffer are isolated input classes because of recorded defects.",
     design_ref="C33",
 )
 
@@ -176,7 +183,7 @@ def run(c):
     # ---- 2. programs --------------------------------------------------------------------------------------
     progs = []
     combos = [(0, "each"), (2, "one"), (2, "each"), (0, "one")]
-    nsel = c.pick(160, 700)
+    nsel = c.pick(160, 2000)
     sel = select(behs, nsel, c.seed)
     probe = dict(qs=c.pick([1, 2, 3], [1, 2, 3, 4]), ks=[1, 3], fs=[0, 1, 2])
     for i, b in enumerate(sel):
@@ -192,9 +199,9 @@ def run(c):
         usage, policy = combos[i % 4]
         progs.append(dict(name="w%d_u%d%s" % (i, usage, policy[0]), usage=usage, buffer=b["buf"], policy=policy,
                           steps=steps_of(b), inspect=(b["buf"] != 1), **probe))
-    gen_main = dict(count=c.pick(8, 80), len=c.pick(25, 60), nids=10, nv=6, np=2, configs=[[0, 0], [2, 0], [2, 2], [0, 2]],
+    gen_main = dict(count=c.pick(8, 160), len=c.pick(25, 60), nids=10, nv=6, np=2, configs=[[0, 0], [2, 0], [2, 2], [0, 2]],
                     ks=[0, 1, 3, 12], p_optimize=0.1, probe_every=1, probe_sample=8, inspect=True)
-    gen_side = dict(count=c.pick(6, 40), len=c.pick(20, 40), nids=6, nv=6, np=2, configs=[[1, 0], [2, 1], [1, 2], [0, 1]],
+    gen_side = dict(count=c.pick(6, 60), len=c.pick(20, 40), nids=6, nv=6, np=2, configs=[[1, 0], [2, 1], [1, 2], [0, 1]],
                     ks=[1, 3, 12], p_optimize=0.12, probe_every=1, probe_sample=8)
 
     # stores larger than the batch sizes of Optimize (200 vectors per transaction) and Consolidate (100)
